@@ -884,7 +884,8 @@ def r8_3_error_dispatch(ctx, prog, rule="R8.3"):
                    "or no supported algorithm -> NotRetryable; 401 needs create_long_term_auth_attrs to succeed first")
     models = lt_iter_models(prog) + lt_models()
     STEP = STEP_COMMON + [r"LongTermCredentialClient::process_error_response$"]
-    paths, info = C.explore_fn(prog, LT + "::process_error_response", "lt", STEP, extra_models=models, adaptor_loops=True)
+    # the loop head is revisited once per abstract store (7 harvested options x iterator flags: thousands of stores)
+    paths, info = C.explore_fn(prog, LT + "::process_error_response", "lt", STEP, extra_models=models, adaptor_loops=True, loop_bound=40000, max_paths=1500000)
     ctx.fn(info["body"])
     if info["bounded"]:
         ctx.violation(rule, "bounded", "loop bound hit", info["where"])
